@@ -307,6 +307,8 @@ void World::opBuild(const Item& op)
         bd.data = contentBytes(id, 0, n);
         if (cls != wire::K_IFSTAT && !bd.data.empty())
             applyDictionary(bd.data.data(), bd.data.size(), id);
+        if (cls == wire::K_ETH)
+            applyFcs(bd.data.data(), bd.data.size(), id);
         bd.vendor = contentBytes(id ^ 0x77777777u, 0, v);
     }
     const size_t fixed = wire::fixedSize(static_cast<wire::Kind>(cls));
